@@ -68,6 +68,10 @@ class Model:
                             s[("fld", o.name, f)] = z3.Bool("f_%s_%s_%d" % (o.name, f, t))
                         else:
                             s[("fld", o.name, f)] = Int("f_%s_%s_%d" % (o.name, f, t))
+            elif o.kind == "wire":
+                for f_ in ("eof", "close", "sent"):
+                    s[("wire", o.name, f_)] = Int("wire_%s_%s_%d" % (o.name, f_, t))
+                s[("wire", o.name, "data_after")] = z3.Bool("wire_%s_da_%d" % (o.name, t))
             elif o.kind == "lock":
                 s[("own", o.name)] = Int("own_%s_%d" % (o.name, t))
             elif o.kind == "cond":
@@ -101,6 +105,9 @@ class Model:
                         if isinstance(d.init, str):              # symbolic initial value: constrained by the harness
                             continue
                         cs.append(s[("fld", o.name, f)] == d.init)
+            elif o.kind == "wire":
+                cs += [s[("wire", o.name, f_)] == 0 for f_ in ("eof", "close", "sent")]
+                cs.append(z3.Not(s[("wire", o.name, "data_after")]))
             elif o.kind == "lock":
                 cs.append(s[("own", o.name)] == -1)
             elif o.kind == "cond":
@@ -215,6 +222,18 @@ class Model:
                     else:
                         v = self.val(ve, a, ti)
                     self.store(put, tgt, act, v, ti, a)
+                elif op == "massign":
+                    for tgt_, ve_ in ins.a:
+                        self.store(put, tgt_, act, self.val(ve_, a, ti), ti, a)
+                elif op == "wire_send":
+                    wname, ve_ = ins.a
+                    code = self.val(ve_, a, ti).i
+                    eof, clo = a[("wire", wname, "eof")], a[("wire", wname, "close")]
+                    put(("wire", wname, "eof"), act, z3.If(code == 96, eof + 1, eof))
+                    put(("wire", wname, "close"), act, z3.If(code == 97, clo + 1, clo))
+                    late = z3.And(z3.Or(code == 94, code == 95), z3.Or(eof > 0, clo > 0))
+                    put(("wire", wname, "data_after"), act, z3.Or(a[("wire", wname, "data_after")], late))
+                    put(("wire", wname, "sent"), act, a[("wire", wname, "sent")] + 1)
                 elif op == "clock":
                     put("clock", act, fresh_clock)
                     self.store(put, ins.a, act, V(fresh_clock), ti, a)
@@ -323,6 +342,10 @@ class Model:
             stutter = z3.And(tid[t] == -1, nobody)
             cs.append(z3.Or(stutter, *moves))
             cs += step_cs
+            # lock-region reduction: a thread that holds one of the designated locks and can move, moves next
+            for lk in getattr(self, "atomic_locks", ()):
+                for ti in range(n):
+                    cs.append(z3.Implies(z3.And(S[t][("own", lk)] == ti, en[ti]), tid[t] == ti))
         self.S, self.tid = S, tid
         return cs
 
